@@ -80,9 +80,17 @@ type ctxKey string
 func (e *Env) Call(site string) {
 	n := e.calls[site]
 	e.calls[site] = n + 1
-	e.callOrder = append(e.callOrder, site)
-	if f := e.faultAt(site, n); f != nil {
+	before := 0
+	if e.evCount != nil {
+		before = e.evCount()
+	}
+	e.CallLog = append(e.CallLog, CallRec{Site: site, Inv: n, Before: before})
+	if f := e.faultAt(site, n); f != nil && f.Kind != "ret-err" {
 		e.firedFaults++
+		if e.firedFaults == 1 {
+			e.faultBefore = before
+			e.firstFault = f
+		}
 		e.K.Log(fmt.Sprintf("fault %s@%s#%d", f.Kind, site, n))
 		switch f.Kind {
 		case "panic-err":
@@ -99,8 +107,16 @@ func (e *Env) CallErr(site string) error {
 	n := e.calls[site]
 	if f := e.faultAt(site, n); f != nil && f.Kind == "ret-err" {
 		e.calls[site] = n + 1
-		e.callOrder = append(e.callOrder, site)
+		before := 0
+		if e.evCount != nil {
+			before = e.evCount()
+		}
+		e.CallLog = append(e.CallLog, CallRec{Site: site, Inv: n, Before: before})
 		e.firedFaults++
+		if e.firedFaults == 1 {
+			e.faultBefore = before
+			e.firstFault = f
+		}
 		e.K.Log(fmt.Sprintf("fault ret-err@%s#%d", site, n))
 		e.Yield()
 		return ScriptError(90 + f.Arg)
@@ -110,24 +126,16 @@ func (e *Env) CallErr(site string) error {
 }
 
 func (e *Env) faultAt(site string, inv int) *FaultSpec {
+	if e.faultsOff {
+		return nil
+	}
 	for i := range e.Sc.Faults {
 		f := &e.Sc.Faults[i]
-		if f.Kind != "panic-err" && f.Kind != "panic-str" && f.Kind != "ret-err" {
-			continue
-		}
-		if e.siteName(f.Pos) == site && f.Inv == inv {
+		if f.Site == site && f.Inv == inv {
 			return f
 		}
 	}
 	return nil
-}
-
-// siteName maps a fault position index to a callback site (positions are discovered by a fault-free run).
-func (e *Env) siteName(pos int) string {
-	if pos >= 0 && pos < len(e.Sites) {
-		return e.Sites[pos]
-	}
-	return ""
 }
 
 func b2i(b bool) int {
